@@ -26,16 +26,22 @@ def cases(run: Run):
         steps = rng.randint(3, 7)
         out.append({
             "imp_k": rng.randint(1, steps - 1), "split_at_impulse": rng.random() < 0.6,
+            # the impulse at a step boundary, or part of a step later - in a third of the cases inside the very first step of the run
+            "imp_frac": rng.choice([0.0, 0.0, 0.5, 0.25]), "imp_first_step": rng.random() < 0.34,
             "add_at": [3, 4] if steps >= 5 else [1, 2],
             "dt": rng.choice([60, 60, 30]), "steps": steps, "ns": rng.randint(1, 2), "nt": rng.randint(2, 3), "prop": rng.choice(["two_body", "special_perturbations"]),
             "start_sec": rng.choice([0, 17]), "seed": rng.randint(1, 10**6), "impulse": rng.random() < 0.6,
             # the variants that found something in the past are always there; the others are sampled
-            "variants": ["filter_model", "drop_first"] + rng.sample(["truth_only", "greedy", "noise_seed", "out2", "split", "order", "extra_target", "extra_sensor", "fewer_targets", "random_decision",
+            "variants": ["filter_model", "drop_first", "drop_maneuvering"] + rng.sample(["truth_only", "greedy", "noise_seed", "out2", "split", "order", "extra_target", "extra_sensor", "fewer_targets", "random_decision",
                                                                       "no_additions", "reorder", "id_reused", "id_reused"], run.n(5, 8)),
             "additions": rng.choice([2, 2, 0, 1]),
             # radiation pressure on, and every target with its own mass and area: a satellite's truth must not depend on which other satellites exist
             "srp": rng.random() < 0.6, "fresh": rng.choice(["drop_first", "drop_first", "reorder", "base"]),
         })
+    # pinned shape: the manoeuvre falls inside the first step the agents live through, and the run is repeated without the manoeuvring target
+    gen = [c for c in out if "imp_k" in c and "imp_frac" in c]
+    if gen:
+        gen[0].update(impulse=True, imp_first_step=True)
     return out
 
 
@@ -53,6 +59,8 @@ def build(c, v):
         tids = tids[:-1]
     if v == "drop_first":
         tids = tids[1:]
+    if v == "drop_maneuvering":
+        tids = [k for k in tids if k != 1]  # the others fly as if it had never been there - also when it manoeuvres in its very first step
     if v == "reorder":
         tids = tids[::-1]
     sensors = [scen.radar_cfg(60001 + k, *SITES[k]) for k in range(ns)]
@@ -71,8 +79,9 @@ def build(c, v):
     eng = [scen.engine_cfg(1, targets, sensors, decision=decision, seed=5)]
     events = []
     if c["impulse"] and 1 in tids:  # the manoeuvring target is the second one; a variant that leaves it out has no such event
-        events.append({"scope": "agent_propagation", "scope_instance_id": 10002, "start_time": scen.iso(start + timedelta(seconds=c["dt"] * c.get("imp_k", 2))),
-                       "end_time": scen.iso(start + timedelta(seconds=c["dt"] * c.get("imp_k", 2))), "event_type": "impulse", "thrust_vector": [0.0, 0.01, 0.0], "thrust_frame": "ntw", "planned": False})
+        when = c["dt"] * ((0.5 if c.get("imp_first_step") else c.get("imp_k", 2)) + (0.0 if c.get("imp_first_step") else c.get("imp_frac", 0.0)))
+        events.append({"scope": "agent_propagation", "scope_instance_id": 10002, "start_time": scen.iso(start + timedelta(seconds=when)),
+                       "end_time": scen.iso(start + timedelta(seconds=when)), "event_type": "impulse", "thrust_vector": [0.0, 0.01, 0.0], "thrust_frame": "ntw", "planned": False})
     # targets that join at run time (scenario-step events): their truth must not depend on estimation settings either
     add_at = c.get("add_at", [1, 2])
     if v == "id_reused" and c.get("additions", 0) >= 1 and add_at[0] >= 3:
@@ -136,7 +145,7 @@ def run_variant(c, v):
             k = 0
             # ... one of the calls ends exactly at the instant of the impulse, when there is one
             ik = c.get("imp_k", 2)
-            for chunk in ((ik, c["steps"]) if (c.get("impulse") and c.get("split_at_impulse")) else (1, 2, c["steps"])):
+            for chunk in ((ik, c["steps"]) if (c.get("impulse") and c.get("split_at_impulse") and not c.get("imp_first_step") and not c.get("imp_frac")) else (1, 2, c["steps"])):
                 k = min(c["steps"], k + chunk)
                 before = int(round(float(app.clock.time) / c["dt"]))
                 app.propagateTo(JulianDate(ScenarioTime(float(k * c["dt"])).convertToJulianDate(jd0)))
